@@ -155,7 +155,9 @@ def contents(max_len=70000, big=False, blocksize=None):
         lens.append(st.builds(lambda k, d: max(0, k * blocksize + d), st.integers(1, 5), st.integers(-1, 1)))
     gen = st.tuples(st.just("gen"), st.sampled_from(TEXTURES), st.one_of(*lens), st.integers(0, 1 << 32)).map(list)
     raw = st.binary(max_size=64).map(lambda b: ["hex", b.hex()])
-    return st.one_of(gen, gen, gen, raw)
+    # contents whose CRC-32 is 0 / 0xFFFFFFFF: a defined digest that looks like "nothing" to a truthiness test
+    special = st.sampled_from([["hex", "9d0ad96d"], ["hex", "ffffffff"], ["hex", ""]])
+    return st.one_of(gen, gen, gen, gen, gen, raw, raw, special)
 
 
 def content_len(desc) -> int:
